@@ -1,16 +1,21 @@
 mod astgen;
 mod c04;
+mod c04o;
+mod c02;
 mod c03;
 mod c06;
 mod c08;
+mod c12;
 mod c13;
 mod c16;
 mod c17;
+mod c18;
 mod c19;
 mod canon;
 mod wrap;
 mod common;
 mod cursor;
+mod exprprint;
 mod o_text;
 mod reflect;
 mod tab;
@@ -29,7 +34,9 @@ fn main() {
             let c = load_corpus();
             let reps: Vec<Report> = match p {
                 "C01" => vec![o_text::c01(&c, &tier)],
+                "C02" => c02::oracle(&c, seed, &tier),
                 "C03" => c03::oracle(seed, &tier),
+                "C04" => c04o::oracle(seed, &tier),
                 "C05" => vec![o_text::c05(&c, &tier)],
                 "C06" => c06::oracle_c06(seed, &tier),
                 "C07" => vec![o_text::c07(&c, &tier)],
@@ -37,11 +44,13 @@ fn main() {
                 "C09" => vec![o_text::c09(&c, &tier, seed)],
                 "C10" => vec![o_text::c10(&c, &tier)],
                 "C11" => vec![o_text::c11(&c, &tier)],
+                "C12" => c12::oracle(&c, seed, &tier),
                 "C13" => c13::oracle(&c, seed, &tier),
                 "C14" => o_text::c14(&c, &tier, seed),
                 "C15" => vec![o_text::c15(&c, &tier)],
                 "C16" => c16::oracle(&c, seed, &tier),
                 "C17" => c17::oracle(&c, seed, &tier),
+                "C18" => c18::oracle(&c, seed, &tier),
                 "C19" => c19::oracle(&c, seed, &tier),
                 "C20" => c06::oracle_c20(&c, seed, &tier),
                 _ => { eprintln!("no oracle for {p}"); std::process::exit(2) }
@@ -59,15 +68,30 @@ fn main() {
                 "prec" => c04::corr_prec(dir, seed, &tier),
                 "chains" => c04::corr_chains(dir, seed, &tier),
                 "setops" => c04::corr_setops(dir, seed, &tier),
+                "ladder" => c12::corr_ladder(dir, seed, &tier),
+                "exprprint" => exprprint::corr(dir, seed, &tier),
                 "tok" => tokstream::corr(dir, seed, &tier),
                 "visit" => c16::corr(dir, seed, &tier),
                 "serde" => c17::corr(dir, seed, &tier),
                 "lits" => c06::corr(dir, seed, &tier),
+                "dtparse" => c18::corr_parse(dir, seed, &tier),
+                "dtprint" => c18::corr_print(dir, seed, &tier),
                 _ => { eprintln!("no corr stream {name}"); std::process::exit(2) }
             };
             rep.emit();
         }
+        Some("deep-child") => c02::deep_child(&args[2..]),
         Some("nest-child") => c03::child(&args[2..]),
+        Some("parse") => {
+            // developer probe: harness parse <dialect> <sql>
+            let d = dialect(&args[2]);
+            match parse(d.as_ref(), Opts::DEFAULT, &args[3]) {
+                G::Val(Ok(v)) => { for s in &v { println!("OK {s}    {s:?}"); } }
+                G::Val(Err(e)) => println!("ERR {e}"),
+                G::Panic(m) => println!("PANIC {m}"),
+            }
+            println!("TOKENS {:?}", match tokenize(d.as_ref(), true, &args[3]) { G::Val(t) => format!("{t:?}"), G::Panic(m) => m });
+        }
         Some("corpus-stats") => {
             let c = load_corpus();
             println!("literals={} accepted_pairs={}", c.literals.len(), c.accepted.len());
